@@ -79,24 +79,25 @@ type inl struct {
 }
 
 type blk struct {
-	k       kind
-	inl     []*inl
-	level   int
-	lines   []string // code / html lines
-	info    string
-	kids    []*blk
-	items   [][]*blk
-	start   int
-	delim   byte // '.' or ')' ; bullet char for bullets
-	loose   bool
-	label   string // refdef
-	dest    string
-	title   string
-	hasTtl  bool
-	closing bool // ATX closing sequence
-	fenceCh byte
-	fenceN  int
-	brk     string
+	k        kind
+	inl      []*inl
+	level    int
+	lines    []string // code / html lines
+	info     string
+	kids     []*blk
+	items    [][]*blk
+	start    int
+	delim    byte // '.' or ')' ; bullet char for bullets
+	loose    bool
+	label    string // refdef
+	dest     string
+	title    string
+	hasTtl   bool
+	closing  bool // ATX closing sequence
+	unclosed bool // fenced code without a closing fence (last block of its container)
+	fenceCh  byte
+	fenceN   int
+	brk      string
 }
 
 type Doc struct {
@@ -534,6 +535,10 @@ func (g *gen) block1(depth int, inListItemFirst bool, afterPara bool) *blk {
 		g.oneLine = true
 		b.inl = g.inlineSeq(g.r.Range(1, 3), 1, false, false)
 		g.oneLine = false
+		if !g.no("atx:empty") && g.r.Intn(10) == 0 {
+			b.inl = nil // "#", "## ##": a heading without content (what was generated for it is plain inline content, nothing refers to it)
+			g.f("atx:empty")
+		}
 		return b
 	case 7:
 		g.f("block:setext")
@@ -572,6 +577,7 @@ func (g *gen) block1(depth int, inListItemFirst bool, afterPara bool) *blk {
 		g.f("block:quote")
 		b := &blk{k: kQuote}
 		b.kids = g.blocks(g.r.Range(1, 3), depth-1)
+		g.maybeUnclosed(b.kids)
 		return b
 	default:
 		return g.list(depth - 1)
@@ -1082,6 +1088,15 @@ func (g *gen) isTight(b *blk) bool {
 	return true
 }
 
+// maybeUnclosed: a fenced code block that is the last block of a block quote or of the
+// document may lack its closing fence; the end of the container closes it.
+func (g *gen) maybeUnclosed(bs []*blk) {
+	if n := len(bs); n > 0 && bs[n-1].k == kFenced && !g.no("fence:unclosed") && g.r.Intn(3) == 0 {
+		bs[n-1].unclosed = true
+		g.f("fence:unclosed")
+	}
+}
+
 // Generate builds one document.
 func Generate(r *core.Rand, p Profile) *Doc {
 	if p.MaxNodes == 0 {
@@ -1106,6 +1121,7 @@ func Generate(r *core.Rand, p Profile) *Doc {
 			top = append(top[:i], append([]*blk{g.paragraph(false)}, top[i:]...)...)
 		}
 	}
+	g.maybeUnclosed(top)
 	md := g.serialize(top)
 	var sb strings.Builder
 	first := true
